@@ -7,7 +7,8 @@
     rel r           r (standing at the gate = pc `willWait`) does `waitEnq`
     back r          r runs back() as far as it can
     hb              —
-  followed in every block by: settle; hbRead; hbFire; settle          (settle = every reader that can
+  followed in every block by: settle; hbRead; hbFire; settle   (kinds `…-nohb`: only the first settle;
+  the pool's heartbeat interval is one hour there)          (settle = every reader that can
   move runs, readers the implementation reports as `got` first: who wins a race is the scheduler's
   choice, the model follows the observed choice and must then agree on everything else).
 -/
@@ -62,6 +63,11 @@ structure Gates where
   atGate : List Nat := []   -- readers standing at the gate
   deriving Repr
 
+def MOp.reader : MOp → List Nat
+  | .get r _ | .rel r | .back r => [r]
+  | .hb => []
+
+/-- settle order: the reader of the op itself, then the readers observed as `got`, then everybody -/
 def gotFirst (obs : List (Nat × Status)) (n : Nat) : List Nat :=
   (obs.filterMap fun (r, st) => match st with | .got _ => some r | _ => none) ++ List.range n
 
@@ -104,11 +110,12 @@ def applyOp (c : Cfg) (m : MS) : MOp → Option MS
     pure { m with s := s }
   | .hb => some m
 
-def block? (c : Cfg) (m : MS) (b : Block) : Option MS := do
+def block? (c : Cfg) (hb : Bool) (m : MS) (b : Block) : Option MS := do
   let n := m.s.pcs.length
-  let order := gotFirst b.obs n
+  let order := b.op.reader ++ gotFirst b.obs n
   let m ← applyOp c m b.op
   let m := settle c order (n + 2) m
+  if !hb then pure m else
   let s1 ← step? c m.s .hbRead
   let s2 ← step? c s1 .hbFire
   pure (settle c order (n + 2) { m with s := s2 })
@@ -171,11 +178,12 @@ def applyOp (m : MS) : MOp → Option MS
     pure { m with s := s }
   | .hb => some m
 
-def block? (m : MS) (b : Block) : Option MS := do
+def block? (hb : Bool) (m : MS) (b : Block) : Option MS := do
   let n := m.s.pcs.length
-  let order := gotFirst b.obs n
+  let order := b.op.reader ++ gotFirst b.obs n
   let m ← applyOp m b.op
   let m := settle order (n + 2) m
+  if !hb then pure m else
   let s1 ← step? m.s .hbRead
   let s2 ← step? s1 .hbFire
   pure (settle order (n + 2) { m with s := s2 })
